@@ -399,7 +399,8 @@ def handleGetex (c : Ctx) (cmd : List Bytes) : Prog Res :=
           else .ret (.err (b "unknown option " ++ o ++ b " -- '" ++ fmtStrSlice cmd ++ b "'"))
   | _ => .ret (.err wrongArgs)
 
-/-- :789 handleType — `reflect.TypeOf(nil).Kind()` is a nil-pointer panic -/
+/-- :789 handleType — a value that reads as nil (the key expired between KeysExist and GetValues, or the entry
+    holds only a deadline) is answered like a missing key -/
 def handleType (_c : Ctx) (cmd : List Bytes) : Prog Res :=
   match cmd with
   | [_, key] =>
@@ -407,7 +408,7 @@ def handleType (_c : Ctx) (cmd : List Bytes) : Prog Res :=
     if !(ex.headD false) then .ret (.err (b "key " ++ key ++ b " does not exist")) else
     .call (.getValues [key]) fun (vs : List Val) =>
     match vs.headD .nil with
-    | .nil => .panic "reflect.TypeOf(nil).Kind()"
+    | .nil => .ret (.err (b "key " ++ key ++ b " does not exist"))
     | .str _ => .ret (.ok (simpleStr (b "string")))
     | .int _ => .ret (.ok (simpleStr (b "integer")))
     | .flt _ => .ret (.ok (simpleStr (b "float")))
